@@ -373,6 +373,21 @@ def check_C20(tier):
             shown += 1
             chk.sample({"parameter": case["p"], "raw": rawtxt, "env": case["env"], "table_says": case["res"], "returned": out,
                         "obs[outcome,kind,repeat,idem,rawsame,progsame,valeq,nexec]": records[rid]["obs"]})
+    # the same promise one level up: Program.run() cleans every argument of every command (twice) and leaves the raw arguments as they were
+    for wd in (world.wd("abs"), world.wd("rel")):
+        src = ("PROD = OutData()\nNUM = OutNumber()\n"
+               "E = Echo(S = abc, S2 = \"two words\", N = 3, N2 = \"2.5\", B = true, P = sub/in.csv, DT = Float, L = [1, 2.5, \"7\"], LS = [a, \"b c\"],\n"
+               "         NL = [[1], [2, 3.5]], R = PROD, RL = [PROD, NUM], Metadata = [Color: Blue, Zero: 0])\n")
+        prog = world.Program.from_source(src, libraries=("vprobe",), working_dir=wd)
+        before = [(n, [(a.name, world.freeze(a.value)) for a in c.arguments]) for n, c in prog.commands.items()]
+        text = prog.to_string()
+        prog.run()
+        prog.run()
+        after = [(n, [(a.name, world.freeze(a.value)) for a in c.arguments]) for n, c in prog.commands.items()]
+        chk.cov["evaluations"] += 1
+        if before != after or prog.to_string() != text:
+            changed = [(n, x[0], repr(x[1])[:80], repr(y[1])[:80]) for (n, xs), (_, ys) in zip(before, after) for x, y in zip(xs, ys) if x != y]
+            chk.finding("C20:Program.run:C20.Mutated", "Program.run() altered the raw arguments of its commands", {"source": src, "working_dir": wd, "changed[command, argument, before, after]": changed[:6]})
     chk.cov["rule"] = ("TLC enumerates every (parameter configuration x raw value kind x environment) cell of MPParams.Clean - 9 parameter classes incl. Path(must/may), "
                        "Result(5 wanted kinds x 3 fuzziness), List(item type) and nested lists; raw kinds int/float/bool/14 string forms/lists/python tuples/dicts/command/type/array; "
                        "working directory none/abs/rel; producer finished/new x 5 output kinds x fuzzy - and checks Idempotent, ErrIsParameterError, Typed, ItemWise on the table; "
